@@ -1851,6 +1851,14 @@ class Cluster(object):
 
         try:
             # all futures have completed at this point
+            if self.metadata.get_host(host.endpoint) is None:
+                # the host was removed while its pools were being created: it must not be marked up
+                # (or reconnected); drop whatever pools the sessions just opened for it
+                log.debug("Host %s was removed while being marked up", host)
+                for session in tuple(self.sessions):
+                    session.remove_pool(host)
+                return
+
             for exc in [f for f in results if isinstance(f, Exception)]:
                 log.error("Unexpected failure while marking node %s up:", host, exc_info=exc)
                 self._cleanup_failed_on_up_handling(host)
